@@ -1,1 +1,122 @@
-(* Per/X691.v -- stub, to be filled *)
+(* Reference encodings of the X.691 (08/2015) UNALIGNED-variant primitives, written
+   clause by clause from the standard and independently of Per/Prim.v (shared: [bits]
+   only).  [None] = the arguments are inadmissible (nothing to encode). *)
+From A1 Require Export Bits.Naive.
+Local Open Scope N_scope.
+
+(* the k low-order bits of v, most significant first: a "bit-field of length k" (11.3) *)
+Definition field (k : N) (v : N) : bits := bits_of_val (N.to_nat k) v.
+
+(* 11.3 non-negative-binary-integer in the minimum number of bits (at least [minbits]) *)
+Definition nbits (v : N) : N := N.size v.        (* 0 for v = 0 *)
+(* minimum number of octets holding v as a non-negative-binary-integer (at least one) *)
+Definition noctets (v : N) : N := N.max 1 ((nbits v + 7) / 8).
+
+(* 11.4 2's-complement-binary-integer: minimum number of octets *)
+Definition twos_octets (v : Z) : N :=
+  if (0 <=? v)%Z then N.max 1 ((nbits (Z.to_N v) + 1 + 7) / 8)
+  else N.max 1 ((nbits (Z.to_N (- v - 1)) + 1 + 7) / 8).
+Definition twos_field (octets : N) (v : Z) : bits :=
+  field (8 * octets) (Z.to_N (v mod 2 ^ Z.of_N (8 * octets))).
+
+(* 11.5.7 (UNALIGNED, 11.5.6): constrained whole number, range = ub - lb + 1:
+   a bit-field of the minimum length holding range - 1; empty when range = 1 *)
+Definition x_constrained (lb ub v : Z) : option bits :=
+  if ((lb <=? v) && (v <=? ub))%Z then
+    let range1 := Z.to_N (ub - lb) in   (* range - 1 *)
+    Some (field (nbits range1) (Z.to_N (v - lb)))
+  else None.
+
+(* 11.9.3.5 - 11.9.3.8 (UNALIGNED: no alignment): unconstrained length determinant for a value
+   below 16K; fragmentation is handled by the callers ([x_frag]) *)
+Definition x_len_short (n : N) : bits :=
+  if n <=? 127 then false :: field 7 n
+  else true :: false :: field 14 n.
+
+(* 11.9.3.8: a run of [n] items (each [unit] bits wide in [body]) with 16K fragmentation:
+   blocks of m*16K items (m = 1..4, the largest possible first), each preceded by 11 + 6-bit m,
+   followed by a final length below 16K (possibly 0) and the remaining items *)
+Fixpoint x_frag (fuel : nat) (unit : N) (n : N) (body : bits) : bits :=
+  match fuel with
+  | O => []
+  | S f =>
+      if n <? 16384 then x_len_short n ++ body
+      else
+        let m := N.min (n / 16384) 4 in
+        let cnt := m * 16384 in
+        true :: true :: field 6 m ++ firstn (N.to_nat (cnt * unit)) body
+          ++ x_frag f unit (n - cnt) (skipn (N.to_nat (cnt * unit)) body)
+  end.
+Definition x_unconstrained_length_run (unit n : N) (body : bits) : bits :=
+  x_frag (S (N.to_nat (n / 16384))) unit n body.
+
+(* 11.7: semi-constrained whole number: (v - lb) as non-negative-binary-integer in the minimum
+   number of octets, preceded by an unconstrained length determinant counting the octets *)
+Definition x_semi_constrained (lb v : Z) : option bits :=
+  if (lb <=? v)%Z then
+    let d := Z.to_N (v - lb) in
+    Some (x_len_short (noctets d) ++ field (8 * noctets d) d)
+  else None.
+
+(* 11.8: unconstrained whole number: 2's complement in the minimum number of octets with length *)
+Definition x_unconstrained (v : Z) : bits :=
+  x_len_short (twos_octets v) ++ twos_field (twos_octets v) v.
+
+(* 11.6: normally small non-negative whole number *)
+Definition x_normally_small (n : N) : bits :=
+  if n <=? 63 then false :: field 6 n
+  else true :: x_len_short (noctets n) ++ field (8 * noctets n) n.
+
+(* the first length determinant of a possibly fragmented run: 11.9.3.8 header for n >= 16K *)
+Definition x_len_first (n : N) : bits :=
+  if n <? 16384 then x_len_short n else true :: true :: field 6 (N.min (n / 16384) 4).
+
+(* 11.9.4 (UNALIGNED) length determinant for a count n with optional bounds, n below 16K in the
+   unconstrained form (callers fragment otherwise):
+   11.9.4.1: ub defined and below 64K -> constrained whole number (lb, ub);
+   11.9.4.2: otherwise the unconstrained form 11.9.3.5-8 *)
+Definition x_length (lb ub : option N) (n : N) : option bits :=
+  let l := match lb with Some l => l | None => 0 end in
+  match ub with
+  | Some u =>
+      if u <? 65536 then x_constrained (Z.of_N l) (Z.of_N u) (Z.of_N n)
+      else if (l <=? n) && (n <=? u) then Some (x_len_first n) else None
+  | None => if l <=? n then Some (x_len_first n) else None
+  end.
+
+(* 14 / 23: enumeration or choice index: [std] root items, [extensible], chosen [index] *)
+Definition x_index (std : N) (extensible : bool) (index : N) : option bits :=
+  if index <? std then
+    match x_constrained 0 (Z.of_N std - 1) (Z.of_N index) with
+    | Some b => Some (if extensible then false :: b else b)
+    | None => None
+    end
+  else if extensible then Some (true :: x_normally_small (index - std))
+  else None.
+
+(* 17: OCTET STRING of [n] octets [body] (8 bits each) with SIZE (lb..ub[, ...]) *)
+Definition x_sized_run (unit : N) (lb ub : option N) (extensible : bool) (n : N) (body : bits) : option bits :=
+  let l := match lb with Some l => l | None => 0 end in
+  let in_root := (l <=? n) && (match ub with Some u => n <=? u | None => true end) in
+  if in_root then
+    let pre := if extensible then [false] else [] in
+    match ub with
+    | Some u =>
+        if u =? 0 then Some pre                                   (* 17.5 / 16.8 *)
+        else if (l =? u) && (u <? 65536) then Some (pre ++ body)  (* 17.6-17.7 / 16.9-16.10: no length *)
+        else if u <? 65536 then
+          match x_constrained (Z.of_N l) (Z.of_N u) (Z.of_N n) with
+          | Some lenb => Some (pre ++ lenb ++ body)
+          | None => None
+          end
+        else Some (pre ++ x_unconstrained_length_run unit n body)
+    | None => Some (pre ++ x_unconstrained_length_run unit n body)
+    end
+  else if extensible then Some (true :: x_unconstrained_length_run unit n body)   (* 17.3 / 16.6 *)
+  else None.
+
+Definition x_octetstring (lb ub : option N) (extensible : bool) (octets : list N) : option bits :=
+  x_sized_run 8 lb ub extensible (N.of_nat (length octets)) (bits_of_bytes octets).
+
+Definition x_bitstring (lb ub : option N) (extensible : bool) (content : bits) : option bits :=
+  x_sized_run 1 lb ub extensible (N.of_nat (length content)) content.
